@@ -59,6 +59,17 @@ func checkC08(w *World, r *Report) {
 		}
 		r.Check(ok, "C08.R2", fname(pr.stopFn)+":leaves-parent", "parentCtx.children.Delete(p.pid.ID) on every path with a parent", w.fnPos(pr.stopFn),
 			"a child that stops on its own stays listed in its parent's Children(); the parent later poisons a dead PID")
+		// ... and before the id is released: once unregistered the parent may respawn the same id,
+		// a later Delete would remove the successor's entry.
+		okB := anyOf(D)
+		rem := w.Nodes(g, EvCall("Registry.Remove", w.Method("actor", "Registry", "Remove")), false)
+		for _, rm := range members(rem) {
+			if reach[rm] {
+				okB = false
+			}
+		}
+		r.Check(okB, "C08.R2", fname(pr.stopFn)+":leaves-parent-before-unregistering", "the child leaves its parent's children before its id is released in the registry", w.fnPos(pr.stopFn),
+			"the id can be re-spawned by the parent between Registry.Remove and the Delete: the old child then deletes its successor from Children(), which is no longer supervised")
 	}
 	// R3
 	sc := w.Method("actor", "Context", "SpawnChild")
